@@ -52,6 +52,28 @@ def showBuild (r : Except PErr (Option PT)) : String :=
   | .error .typeError => "err:TypeError"
   | .error .zeroDivision => "err:ZeroDivisionError"
 
+partial def parseShape : List String → Option (Shape Rat × List String)
+  | "S" :: k :: r =>
+      let n := pN k
+      let rs := (r.take n).map pQ
+      match r.drop n with
+      | x :: y :: z :: rest => some (.sphere rs (pQ x, pQ y, pQ z), rest)
+      | _ => none
+  | "E" :: a :: b :: c :: x :: y :: z :: rest => some (.ellipsoid (pQ a, pQ b, pQ c) (pQ x, pQ y, pQ z), rest)
+  | op :: r => do
+      let (a, r) ← parseShape r
+      let (b, r) ← parseShape r
+      match op with
+      | "U" => pure (.union a b, r)
+      | "D" => pure (.difference a b, r)
+      | "I" => pure (.intersection a b, r)
+      | _ => none
+  | [] => none
+
+def quads {β : Type} : List β → List (β × β × β × β)
+  | a :: b :: c :: d :: rest => (a, b, c, d) :: quads rest
+  | _ => []
+
 def step (line : String) : String :=
   match (line.trimAscii.toString.splitOn " ").filter (· ≠ "") with
   -- C19 ---------------------------------------------------------------
@@ -147,6 +169,33 @@ def step (line : String) : String :=
           sFs [t.eval g ratF Float.pow, e.eval g ratF Float.pow]
         | r => showBuild r
       | _ => "bad-op"
+  -- C20 ---------------------------------------------------------------
+  | "domain" :: k :: rest =>
+      let n := pN k
+      let rs := (rest.take n).map pQ
+      match (rest.drop n).map pQ with
+      | [cx, cy, cz, px, py, pz] => toString (sphereDomain rs (cx, cy, cz) (px, py, pz))
+      | _ => "bad-op"
+  | "contains" :: rest =>
+      match parseShape rest with
+      | some (sh, [x, y, z]) => toString (sh.contains (pQ x, pQ y, pQ z))
+      | _ => "bad-op"
+  | "tcontains" :: vx :: vy :: vz :: rest =>
+      match parseShape rest with
+      | some (sh, [x, y, z]) => toString ((sh.translated (pQ vx, pQ vy, pQ vz)).contains (pQ x, pQ y, pQ z))
+      | _ => "bad-op"
+  | "bounds" :: rest =>
+      match parseShape rest with
+      | some (sh, []) => let b := sh.bounds; sQs [b.1.1, b.1.2, b.2.1.1, b.2.1.2, b.2.2.1, b.2.2.2]
+      | _ => "bad-op"
+  | "overlaps" :: w :: rest =>
+      let ss := (quads (rest.map pQ)).map fun q => ((q.1, q.2.1, q.2.2.1), q.2.2.2)
+      let ov := overlaps ss
+      " ".intercalate (ov.map fun p => toString p.1 ++ "," ++ toString p.2) ++ " | " ++ toString (warns ss (w == "1"))
+  | "largest" :: rest =>
+      let ss := (quads (rest.map pF)).map fun q => ((q.1, q.2.1, q.2.2.1), q.2.2.2)
+      sF (largestOverlap ss)
+  | "spherector" :: rest => if sphereCtorOk (rest.map pQ) then "ok" else "err:InvalidScatterer"
   | ["genfailures"] => toString translationFailures
   | _ => "bad-op"
 
